@@ -50,13 +50,6 @@ class BufSizeEstimator:
             # it's not used.
             buf_size = max_buffer_size[0] + 1
 
-            # The estimate is off for Asia/Atyrau. ZoneSpecifier returns
-            # max_buffer_size[0]==4 which means 5 should be enough, but
-            # TransitionStorage.getHighWater() says that 6 is required. Not sure
-            # why.
-            if zone_name == 'Asia/Atyrau':
-                buf_size += 1
-
             buf_sizes[zone_name] = buf_size
             if buf_size > max_size:
                 max_size = buf_size
